@@ -21,6 +21,8 @@ def run(ctx):
     ]
     ctx.not_decided += ['outcome probabilities and collapse/renormalisation arithmetic', 'stabilizer measurement', 'confusion-map sampling arithmetic', 'condition resolution semantics']
     simrules.sample_pure_rule(ctx, 'C02.a')
+    simrules.unchecked_factor_rule(ctx, 'C02.j')
+    ctx.decided.append('C02.j sub-states are split without validation only after computational-basis measurements and resets')
     shared.seed_restart_rule(ctx, 'C02.k', ['cirq-core/cirq/'], floor=8)
     ctx.decided.append('C02.k a seed parameter is parsed once per call, never handed raw to something inside a loop (independent draws stay independent for integer seeds)')
     simrules.copy_isolation_rule(ctx, 'C02.b')
